@@ -216,9 +216,9 @@ fn cltv_delta() -> SBoxedStrategy<u16> {
 fn dir_strat(scale: u64) -> SBoxedStrategy<Option<DirSpec>> {
 	let sm = scale.saturating_mul(1000);
 	let min = prop_oneof![
-		5 => Just(0u64),
-		2 => 1..=1000u64,
-		3 => (1..=16u64).prop_map(move |k| sm / 16 * k),
+		6 => Just(0u64),
+		3 => 1..=1000u64,
+		2 => (1..=16u64).prop_map(move |k| sm / 16 * k),
 		1 => logu(45),
 	];
 	let max = prop_oneof![
@@ -226,9 +226,9 @@ fn dir_strat(scale: u64) -> SBoxedStrategy<Option<DirSpec>> {
 		3 => (1..=32u64, 1..=4u64).prop_map(move |(k, d)| (sm * k / d).max(1)),
 		1 => logu(45),
 	];
-	let d = (min, max, base_fee(), ppm_fee(), cltv_delta(), prop::bool::weighted(0.9))
+	let d = (min, max, base_fee(), ppm_fee(), cltv_delta(), prop::bool::weighted(0.93))
 		.prop_map(|(min, max, base, ppm, cltv, en)| DirSpec { en, min, max, base, ppm, cltv });
-	prop_oneof![15 => d.prop_map(Some), 1 => Just(None)].sboxed()
+	prop_oneof![30 => d.prop_map(Some), 1 => Just(None)].sboxed()
 }
 
 fn chan_strat(scale: u64) -> SBoxedStrategy<ChanSpec> {
@@ -265,10 +265,11 @@ fn hist_strat() -> SBoxedStrategy<Vec<HistEv>> {
 
 fn amount_strat() -> SBoxedStrategy<Amt> {
 	prop_oneof![
-		2 => logu(44).prop_map(|a| Amt::Abs(a.max(1))),
-		1 => (1..=1000u64).prop_map(Amt::Abs),
-		6 => (1..=400u16).prop_map(Amt::Scale),
-		6 => (any::<u16>(), 1..=3u8, -1..=1i8).prop_map(|(idx, div, delta)| Amt::Near { idx, div, delta }),
+		4 => logu(44).prop_map(|a| Amt::Abs(a.max(1))),
+		3 => (1..=1000u64).prop_map(Amt::Abs),
+		14 => (1..=400u16).prop_map(Amt::Scale),
+		8 => (1..=32u16).prop_map(Amt::Scale),
+		12 => (any::<u16>(), 1..=3u8, -1..=1i8).prop_map(|(idx, div, delta)| Amt::Near { idx, div, delta }),
 		1 => Just(Amt::Beyond),
 	]
 	.sboxed()
@@ -285,7 +286,7 @@ fn first_hops_strat(scale: u64, p_some: f64) -> SBoxedStrategy<Option<Vec<FirstH
 		limit,
 		min,
 	});
-	prop::option::weighted(p_some, vec(fh, 0..=4)).sboxed()
+	prop::option::weighted(p_some, prop_oneof![1 => vec(fh.clone(), 0..=1), 20 => vec(fh, 1..=4)]).sboxed()
 }
 
 fn hint_strat(scale: u64) -> SBoxedStrategy<Vec<HintHop>> {
@@ -308,7 +309,7 @@ fn blinded_strat(scale: u64) -> SBoxedStrategy<BlindedSpec> {
 
 fn payee_strat(scale: u64) -> SBoxedStrategy<PayeeSpec> {
 	let mpp = prop_oneof![2 => Just(0u8), 1 => Just(1u8), 4 => Just(2u8)];
-	let final_cltv = prop_oneof![6 => 1..=144u32, 1 => Just(0u32), 1 => 145..=2000u32];
+	let final_cltv = prop_oneof![30 => 1..=144u32, 1 => Just(0u32), 1 => 145..=2000u32];
 	let hints = prop_oneof![12 => Just(vec![]), 5 => vec(hint_strat(scale), 1..=3)];
 	let clear = (any::<u16>(), prop::bool::weighted(0.12), mpp, final_cltv, hints).prop_map(|(node, private, mpp, final_cltv, hints)| PayeeSpec::Clear {
 		node,
@@ -323,15 +324,15 @@ fn payee_strat(scale: u64) -> SBoxedStrategy<PayeeSpec> {
 
 /// General queries: every parameter varies.
 fn query_strat(scale: u64) -> SBoxedStrategy<Query> {
-	let max_paths = prop_oneof![3 => Just(10u8), 2 => Just(1u8), 4 => 2..=8u8, 1 => Just(0u8)];
-	let max_len = prop_oneof![6 => Just(19u8), 3 => 1..=6u8, 1 => any::<u8>()];
-	let max_cltv = prop_oneof![5 => Just(1008u32), 3 => 0..=400u32, 1 => 400..=6000u32, 1 => Just(u32::MAX)];
+	let max_paths = prop_oneof![30 => Just(10u8), 20 => Just(1u8), 40 => 2..=8u8, 1 => Just(0u8)];
+	let max_len = prop_oneof![16 => Just(19u8), 3 => 1..=6u8, 1 => any::<u8>()];
+	let max_cltv = prop_oneof![12 => Just(1008u32), 1 => 0..=150u32, 2 => 150..=600u32, 3 => 600..=6000u32, 2 => Just(u32::MAX)];
 	let sm = scale.saturating_mul(1000);
 	let max_fee = prop_oneof![
-		3 => Just(FeeCap::None),
+		4 => Just(FeeCap::None),
 		3 => Just(FeeCap::Default),
 		3 => (0..=64u64).prop_map(move |k| FeeCap::Abs(sm / 256 * k)),
-		2 => (0..=20_000u64).prop_map(FeeCap::Abs),
+		1 => (0..=20_000u64).prop_map(FeeCap::Abs),
 	];
 	let sat_pow = prop_oneof![5 => Just(2u8), 4 => 0..=8u8, 1 => any::<u8>()];
 	let failed = prop_oneof![7 => Just(vec![]), 3 => vec(any::<u16>(), 1..=4)];
@@ -717,7 +718,8 @@ fn channel_details(scid: Option<u64>, alias: Option<u64>, peer: PublicKey, limit
 /// Resolve a query against the graph spec: the model `World` and the library `Inputs`.
 fn resolve<'a>(g: &GraphSpec, ends: &[(usize, usize)], chans: &'a BTreeMap<u64, MChan>, node_mpp: &BTreeMap<NodeId, bool>, q: &Query) -> (World<'a>, Inputs) {
 	let n = g.n as usize;
-	let payer_k = if q.payer_private { K_PRIV_PAYER } else { pick(q.payer, n) };
+	// an unannounced payer can only get anywhere through supplied first hops
+	let payer_k = if q.payer_private && q.first_hops.is_some() { K_PRIV_PAYER } else { pick(q.payer, n) };
 	let payer = nid(payer_k);
 	let mut limits: Vec<u64> = vec![];
 	let mut scids: Vec<u64> = vec![];
@@ -780,11 +782,17 @@ fn resolve<'a>(g: &GraphSpec, ends: &[(usize, usize)], chans: &'a BTreeMap<u64, 
 	let mut allow_param_mpp = false;
 	let (mpayee, mut pparams) = match &q.payee {
 		PayeeSpec::Clear { node, private, mpp, final_cltv, hints } => {
-			let payee_k = if *private { K_PRIV_PAYEE } else { pick(*node, n) };
+			// an unannounced payee is only reachable through route hints
+			let mut payee_k = if *private && !hints.is_empty() { K_PRIV_PAYEE } else { pick(*node, n) };
+			if payee_k == payer_k {
+				// paying oneself is refused up front; spend the query on something else
+				payee_k = (payee_k + 1) % n;
+			}
+			let not_payee = |k: usize| if k == payee_k { (k + 1) % n } else { k };
 			let mut lhints = vec![];
 			for (h, hint) in hints.iter().enumerate().take(3) {
 				let mut lh = vec![];
-				let srcs: Vec<usize> = hint.iter().enumerate().map(|(k, hop)| if k == 0 || hop.public { pick(hop.src, n) } else { K_HINT + 4 * h + k }).collect();
+				let srcs: Vec<usize> = hint.iter().enumerate().map(|(k, hop)| if k == 0 || hop.public { not_payee(pick(hop.src, n)) } else { K_HINT + 4 * h + k }).collect();
 				for (k, hop) in hint.iter().enumerate().take(3) {
 					let scid = SCID_HINT + 16 * h as u64 + k as u64;
 					let dst = if k + 1 < hint.len().min(3) { srcs[k + 1] } else { payee_k };
@@ -837,9 +845,17 @@ fn resolve<'a>(g: &GraphSpec, ends: &[(usize, usize)], chans: &'a BTreeMap<u64, 
 		PayeeSpec::Blinded { mpp, paths } => {
 			let mut mp = vec![];
 			let mut lp = vec![];
+			let mut one_hop_intro = None;
 			for (j, b) in paths.iter().enumerate().take(3) {
-				let intro_k = pick(b.intro, n);
+				let mut intro_k = pick(b.intro, n);
+				if intro_k == payer_k {
+					intro_k = (intro_k + 1) % n;
+				}
 				let nh = b.hops.clamp(1, 3) as usize;
+				if nh == 1 {
+					// one-hop blinded paths end at their introduction node: the recipient is one node
+					intro_k = *one_hop_intro.get_or_insert(intro_k);
+				}
 				let max = b.max.min(MAX_VALUE_MSAT);
 				let payinfo = BlindedPayInfo {
 					fee_base_msat: b.base,
@@ -982,6 +998,12 @@ struct Facts {
 	hint_used: bool,
 	blinded_used: bool,
 	known_underpaid: bool,
+}
+
+/// Development aid only (default off): `C16_DEV_SKIP_KNOWN=lifted,overflow` turns the two exactly-keyed
+/// findings described in the report into labels so that exploration can continue behind them.
+fn dev_skip(what: &str) -> bool {
+	std::env::var("C16_DEV_SKIP_KNOWN").map_or(false, |v| v.split(',').any(|x| x == what))
 }
 
 fn fail(oracle: &str, detail: String) -> Failure {
@@ -1163,7 +1185,7 @@ fn validate(w: &World, r: &Route) -> Result<Facts, Failure> {
 		facts.overpaid_recipient = true;
 	}
 	// per edge: minimum, forwarding fee, and nothing above need unless forced by the edge's minimum
-	let known_skip = std::env::var("C16_DEV_SKIP_KNOWN").is_ok();
+	let known_skip = dev_skip("lifted");
 	for (pi, p) in vps.iter_mut().enumerate() {
 		let m = p.edges.len();
 		let (edges, amt, hop_fees) = (&p.edges, &p.amt, &p.fees);
@@ -1288,6 +1310,8 @@ fn validate(w: &World, r: &Route) -> Result<Facts, Failure> {
 // ---------------------------------------------------------------------------------------------
 
 struct SEdge {
+	/// scid (0 for a blinded tail), for reporting
+	id: u64,
 	/// None = the blinded recipient
 	to: Option<NodeId>,
 	pol: Pol,
@@ -1324,40 +1348,44 @@ fn slack_regime(g: &GraphSpec, q: &Query, w: &World) -> bool {
 /// qualifies if it is usable, its htlc_minimum is at most the payment value v and its maximum and
 /// capacity are at least v + C. Then a fee-greedy payee-to-payer search reaches every node of this path
 /// with cost <= C and cannot run out of liquidity on it. Returns the number of edges of such a path.
-fn slack_reference(w: &World) -> Option<usize> {
+fn slack_reference(w: &World, allow_wide: bool) -> Option<(usize, String)> {
 	let v = w.amount as u128;
 	let mut adj: BTreeMap<NodeId, Vec<SEdge>> = BTreeMap::new();
 	if let Some(first) = &w.first {
 		for fh in first {
-			adj.entry(w.payer).or_default().push(SEdge { to: Some(fh.peer), pol: Pol { min: fh.min, max: fh.limit, ..FREE }, limit: fh.limit });
+			adj.entry(w.payer).or_default().push(SEdge { id: fh.scid, to: Some(fh.peer), pol: Pol { min: fh.min, max: fh.limit, ..FREE }, limit: fh.limit });
 		}
 	}
-	for c in w.chans.values() {
+	for (scid, c) in w.chans.iter() {
 		// the router only uses channels for which both directions have been announced
 		let (Some(d0), Some(d1)) = (c.d[0], c.d[1]) else { continue };
 		for (src, dst, pol) in [(c.n1, c.n2, d0), (c.n2, c.n1, d1)] {
 			if !pol.enabled || (w.first.is_some() && src == w.payer) {
 				continue;
 			}
-			adj.entry(src).or_default().push(SEdge { to: Some(dst), pol, limit: pol.max.min(c.cap_msat.unwrap_or(u64::MAX)) });
+			adj.entry(src).or_default().push(SEdge { id: *scid, to: Some(dst), pol, limit: pol.max.min(c.cap_msat.unwrap_or(u64::MAX)) });
 		}
 	}
 	for h in &w.hints {
-		adj.entry(h.src).or_default().push(SEdge { to: Some(h.dst), pol: h.pol, limit: h.pol.max });
+		adj.entry(h.src).or_default().push(SEdge { id: h.scid, to: Some(h.dst), pol: h.pol, limit: h.pol.max });
 	}
 	let target = match &w.payee {
 		MPayee::Clear { id, .. } => Some(*id),
 		MPayee::Blinded { paths } => {
 			for b in paths.iter().filter(|b| b.intro != w.payer && !b.failed) {
-				adj.entry(b.intro).or_default().push(SEdge { to: None, pol: b.pol, limit: b.pol.max });
+				adj.entry(b.intro).or_default().push(SEdge { id: 0, to: None, pol: b.pol, limit: b.pol.max });
 			}
 			None
 		},
 	};
-	fn strong(path: &[&SEdge], v: u128) -> bool {
+	fn strong(path: &[&SEdge], v: u128, allow_wide: bool) -> bool {
 		let mut c: u128 = 0;
 		for e in path.iter().rev() {
 			if e.pol.min as u128 > v || v + c > e.limit as u128 {
+				return false;
+			}
+			// amount * ppm beyond 64 bits: the router's fee arithmetic gives up on such an edge
+			if !allow_wide && (v + c) * e.pol.ppm as u128 > u64::MAX as u128 {
 				return false;
 			}
 			c = v + c + fee_of(&e.pol, (v + c) as u64);
@@ -1367,7 +1395,7 @@ fn slack_reference(w: &World) -> Option<usize> {
 		}
 		true
 	}
-	fn dfs<'a>(adj: &'a BTreeMap<NodeId, Vec<SEdge>>, at: NodeId, target: Option<NodeId>, seen: &mut Vec<NodeId>, path: &mut Vec<&'a SEdge>, v: u128, steps: &mut u32) -> Option<usize> {
+	fn dfs<'a>(adj: &'a BTreeMap<NodeId, Vec<SEdge>>, at: NodeId, target: Option<NodeId>, seen: &mut Vec<NodeId>, path: &mut Vec<&'a SEdge>, v: u128, steps: &mut u32, allow_wide: bool) -> Option<(usize, String)> {
 		if path.len() >= 6 {
 			return None;
 		}
@@ -1383,13 +1411,13 @@ fn slack_reference(w: &World) -> Option<usize> {
 			path.push(e);
 			let done = e.to == target;
 			if done {
-				if strong(path, v) {
-					return Some(path.len());
+				if strong(path, v, allow_wide) {
+					return Some((path.len(), format!("{:?}", path.iter().map(|e| (e.id, e.pol.min, e.limit, e.pol.base, e.pol.ppm)).collect::<Vec<_>>())));
 				}
 			} else if let Some(next) = e.to {
 				if !seen.contains(&next) {
 					seen.push(next);
-					let r = dfs(adj, next, target, seen, path, v, steps);
+					let r = dfs(adj, next, target, seen, path, v, steps, allow_wide);
 					seen.pop();
 					if r.is_some() {
 						return r;
@@ -1401,7 +1429,7 @@ fn slack_reference(w: &World) -> Option<usize> {
 		None
 	}
 	let mut steps = 0;
-	dfs(&adj, w.payer, target, &mut vec![w.payer], &mut vec![], v, &mut steps)
+	dfs(&adj, w.payer, target, &mut vec![w.payer], &mut vec![], v, &mut steps, allow_wide)
 }
 
 // ---------------------------------------------------------------------------------------------
@@ -1458,6 +1486,8 @@ fn oracle(c: &Case, ctx: &mut Ctx) -> CaseResult {
 	build_history(g, &ends, &c.hist, &mut prob);
 	let prob_params = ProbabilisticScoringFeeParameters::default();
 	ctx.sub_evaluations(c.qs.len() as u64);
+	let dev_skip_pathlen = dev_skip("pathlen");
+	let dev_skip = dev_skip("overflow");
 
 	for (qi, q) in c.qs.iter().enumerate() {
 		let (w, inp) = resolve(g, &ends, &chans, &node_mpp, q);
@@ -1467,11 +1497,34 @@ fn oracle(c: &Case, ctx: &mut Ctx) -> CaseResult {
 		if ctx.replay {
 			eprintln!("query {} input: {:?}\n  params {:?}\n  first {:?}", qi, q, inp.params, inp.first.as_ref().map(|f| f.iter().map(|d| (d.get_outbound_payment_scid(), d.counterparty.node_id, d.next_outbound_htlc_limit_msat, d.next_outbound_htlc_minimum_msat)).collect::<Vec<_>>()));
 		}
-		let res = match q.scorer {
+		let res = std::panic::catch_unwind(std::panic::AssertUnwindSafe(|| match q.scorer {
 			0 => find_route(&inp.payer_pk, &inp.params, &graph, first_arg, NullLogger, &fixed, &(), &inp.seed),
 			1 => find_route(&inp.payer_pk, &inp.params, &graph, first_arg, NullLogger, &prob, &prob_params, &inp.seed),
 			2 => find_route(&inp.payer_pk, &inp.params, &graph, first_arg, NullLogger, &ScorerAccountingForInFlightHtlcs::new(&fixed, &inp.inflight), &(), &inp.seed),
 			_ => find_route(&inp.payer_pk, &inp.params, &graph, first_arg, NullLogger, &ScorerAccountingForInFlightHtlcs::new(&prob, &inp.inflight), &prob_params, &inp.seed),
+		}));
+		let res = match res {
+			Ok(r) => r,
+			Err(_) => {
+				let (msg, loc) = take_last_panic().unwrap_or_default();
+				// One library debug assertion (compiled out of production builds) is known to be
+				// reachable: the liquidity bookkeeping after a path was lifted to an htlc_minimum. The
+				// property tolerates that excess, so this is counted, not asserted (see report).
+				if msg.contains("used_liquidity_msat <= hop_max_msat") {
+					ctx.label("lib-debug-assert/used-liquidity-exceeds-hop-max(not asserted)");
+					continue;
+				}
+				// The library's own test-build detector for an over-long path (production builds log and
+				// return the route): same clause as the validator's `path-length`.
+				if msg.starts_with("Path had a length of") {
+					if dev_skip_pathlen {
+						ctx.label("DEV-SKIPPED-path-length(lib self-check)");
+						continue;
+					}
+					return Err(Failure::new("path-length", format!("query {}: the router built a path longer than max_path_length {} (caught by the library's own test-build assertion at {}): {}", qi, q.max_len, loc, msg)).with_key("validator/path-length/lib-self-check"));
+				}
+				return Err(Failure { oracle: "panic".into(), detail: format!("query {}: find_route panicked at {}: {}", qi, loc, msg), key: format!("panic@{}", loc) });
+			},
 		};
 		if ctx.replay {
 			eprintln!("query {}: payer {:?} amount {} first {:?} res {:?}", qi, w.payer, w.amount, w.first.as_ref().map(|f| f.iter().map(|x| (x.scid, x.peer, x.limit, x.min)).collect::<Vec<_>>()), res.as_ref().map(|r| r.paths.iter().map(|p| p.hops.iter().map(|h| (h.short_channel_id, h.fee_msat, h.cltv_expiry_delta)).collect::<Vec<_>>()).collect::<Vec<_>>()));
@@ -1513,27 +1566,42 @@ fn oracle(c: &Case, ctx: &mut Ctx) -> CaseResult {
 			},
 			Err(e) => {
 				ctx.label("err");
+				ctx.label(&format!("err/{}", e));
 				if ctx.replay {
 					eprintln!("query {}: Err({})", qi, e);
 				}
 				if slack_regime(g, q, &w) {
-					match slack_reference(&w) {
-						Some(len) if !w.allow_mpp => {
+					let narrow = slack_reference(&w, false);
+					let any = if narrow.is_some() { narrow.clone() } else { slack_reference(&w, true) };
+					match (narrow, any) {
+						(_, Some(_)) if w.allow_mpp => ctx.label("slack/err-with-reference-path-but-mpp-allowed(not asserted)"),
+						(Some((len, desc)), _) => {
 							return Err(Failure::new(
 								"completeness",
-								format!("query {}: find_route failed with {:?} although a single path of {} edges has strong slack for {} msat (no fee/CLTV cap, nothing excluded, zero-penalty scorer)", qi, e, len, w.amount),
+								format!("query {}: find_route failed with {:?} although a single path of {} edges has strong slack for {} msat (no fee/CLTV cap, nothing excluded, zero-penalty scorer); reference edges (scid, min, limit, base, ppm): {}", qi, e, len, w.amount, desc),
 							)
 							.with_key("completeness"));
 						},
-						Some(_) => ctx.label("slack/err-with-reference-path-but-mpp-allowed(not asserted)"),
-						None => ctx.label("slack/err-no-reference-path"),
+						(None, Some((len, desc))) => {
+							// every strong-slack path needs a fee product amount*ppm beyond 64 bits
+							if dev_skip {
+								ctx.label("slack/DEV-SKIPPED-err-fee-product-beyond-u64");
+							} else {
+								return Err(Failure::new(
+									"completeness",
+									format!("query {}: find_route failed with {:?} although a single path of {} edges has strong slack for {} msat; on it amount*ppm exceeds 64 bits (the fee itself does not); reference edges (scid, min, limit, base, ppm): {}", qi, e, len, w.amount, desc),
+								)
+								.with_key("completeness/fee-product-beyond-u64"));
+							}
+						},
+						(_, None) => ctx.label("slack/err-no-reference-path"),
 					}
 				}
 			},
 		}
 		// non-triviality of the completeness clause: a reference path with >= 2 edges exists
 		if slack_regime(g, q, &w) && !w.allow_mpp {
-			if let Some(len) = slack_reference(&w) {
+			if let Some((len, _)) = slack_reference(&w, false) {
 				ctx.label("slack/reference-path");
 				if len >= 2 {
 					ctx.label("slack/reference-path-2+edges");
@@ -1558,8 +1626,8 @@ fn main() {
 		PartSpec {
 			name: "validity",
 			rule: "graph of 2-40 nodes + 40 queries with every parameter varied; a query is non-trivial if the returned route has a path of >=2 hops with some constraint (min, max, capacity, fee cap, CLTV cap) within 1% of binding, or is multi-path sharing a channel",
-			quick_cases: 2_000,
-			thorough_cases: 60_000,
+			quick_cases: 20_000,
+			thorough_cases: 600_000,
 			max_shrink: 600,
 		},
 		case_strat(40, 40, false),
@@ -1569,8 +1637,8 @@ fn main() {
 		PartSpec {
 			name: "completeness",
 			rule: "graph of 2-12 nodes + 24 queries inside the slack regime; non-trivial if an own search finds a single strong-slack path of >=2 edges (then find_route must return Ok, and the route is validated as well)",
-			quick_cases: 1_500,
-			thorough_cases: 40_000,
+			quick_cases: 12_000,
+			thorough_cases: 400_000,
 			max_shrink: 600,
 		},
 		case_strat(12, 24, true),
